@@ -100,8 +100,8 @@ def run(ctx):
     def label_of(kind, case):
         if kind == "ecases":
             cl = case.get("class", "run")
-            if cl == "rejected":                             # binary-rejected-flag | -env | -config
-                return "binary-rejected-" + case.get("source", "flag")
+            if cl in ("rejected", "refusedcfg"):            # binary-rejected-flag | -env | -config, binary-refusedcfg-…
+                return "binary-%s-%s" % (cl, case.get("source", "flag"))
             return "binary-" + cl                            # binary-run | binary-inprocess
         return KINDS[kind][1]
 
@@ -171,7 +171,9 @@ def run(ctx):
                 "--credentials, upstream down; ~45 exchanges per run (proxy auth ok / missing / wrong; upstream closing / 407 / 502 / 403 / "
                 "silent for plain requests and CONNECT; MITM handshake; userinfo in the request URL; /configz with / without / wrong "
                 "credentials; 6 rounds of a 5xx exchange with a --credentials site alternating with successful proxy and API exchanges; "
-                "HTTP-dump records of 5xx exchanges in errors mode are exempt, as the statement allows); inprocess: the real HTTPProxy "
+                "HTTP-dump records of 5xx exchanges in errors mode and of modules configured for headers/body are exempt, as the statement "
+                "allows); several --log-http occurrences (named/unnamed in either order, repeated); configurations the program refuses after "
+                "parsing (duplicate --credentials targets, MITM key not matching the certificate) by flag / env / config file; inprocess: the real HTTPProxy "
                 "with a 400 ms CONNECT timeout (the binary has no flag for it) against the same upstream faults, scan only. "
                 "Every case is non-trivial (each carries at least one secret)",
         "traces_validated_against_impl": evals,
